@@ -540,6 +540,9 @@ fn explore_crashes(rng: &mut Rng, out: &mut Out, rec: &Arc<Recorder>, w: &Worklo
                 } else if (others >> (i % 60)) & 1 == 1 { Fate::Applied } else { Fate::Lost }
             })));
             variants.push(("last-only".into(), Box::new(move |i, n| if i + 1 == n { Fate::Applied } else { Fate::Lost })));
+            // reordering + tearing at block granularity: the last write (typically the journal slot)
+            // lands, of every earlier un-synced write only the blocks after the first do
+            variants.push(("last+tails".into(), Box::new(move |i, n| if i + 1 == n { Fate::Applied } else { Fate::Torn((0..4096).map(|j| j >= 8).collect()) })));
         }
         for (vname, f) in variants {
             let (img, _) = build_image(trace, upto, w.blocks, f.as_ref());
@@ -1074,7 +1077,7 @@ fn writebehind_run(rng: &mut Rng, out: &mut Out, rec: &Arc<Recorder>, dir: &str,
         }
     }
     // poll: rebuild the durable image from the trace until everything accepted is in it
-    let deadline = std::time::Duration::from_secs(10);
+    let deadline = std::time::Duration::from_secs(20);
     let mut ok = false;
     let mut waited = 0u64;
     let mut last_bad: Vec<String> = vec![];
